@@ -61,6 +61,8 @@ type census struct {
 	Rows   []censusRow
 	Cap    string // value of maxDecodedMsgSize ("-" if the constant does not exist)
 	Gates  map[string]bool
+	// Callers: function key -> keys of the same-directory functions that call it (by bare name; ambiguous names left out)
+	Callers map[string][]string
 }
 
 func funcName(fd *ast.FuncDecl) string {
@@ -124,6 +126,7 @@ func runCensus(repo string) (*census, error) {
 		ung, guard map[string]bool // access paths (used for counting only: the names in them never reach a key)
 	}
 	pairs := map[[3]string]*acc{}
+	cs.Callers = map[string][]string{}
 	for _, d := range censusDirs {
 		ents, err := os.ReadDir(filepath.Join(repo, d))
 		if err != nil {
@@ -153,6 +156,18 @@ func runCensus(repo string) (*census, error) {
 				if fd, ok := decl.(*ast.FuncDecl); ok {
 					if h := asBoolHelper(fd); h != nil {
 						helpers[fd.Name.Name] = h
+					}
+				}
+			}
+		}
+		bareToKey := map[string]string{} // bare function name -> key, "" if ambiguous in this directory
+		for _, pf := range files {
+			for _, decl := range pf.af.Decls {
+				if fd, ok := decl.(*ast.FuncDecl); ok {
+					if _, dup := bareToKey[fd.Name.Name]; dup {
+						bareToKey[fd.Name.Name] = ""
+					} else {
+						bareToKey[fd.Name.Name] = d + ":" + funcName(fd)
 					}
 				}
 			}
@@ -219,6 +234,23 @@ func runCensus(repo string) (*census, error) {
 						}
 					}}
 					w.stmts(x.Body.List, map[string]bool{})
+					seenCallee := map[string]bool{}
+					ast.Inspect(x.Body, func(n ast.Node) bool {
+						if call, ok := n.(*ast.CallExpr); ok {
+							name := ""
+							switch f := call.Fun.(type) {
+							case *ast.Ident:
+								name = f.Name
+							case *ast.SelectorExpr:
+								name = f.Sel.Name
+							}
+							if key := bareToKey[name]; key != "" && key != fn && !seenCallee[key] {
+								seenCallee[key] = true
+								cs.Callers[key] = append(cs.Callers[key], fn)
+							}
+						}
+						return true
+					})
 				}
 			}
 		}
@@ -593,7 +625,7 @@ func loadExpectations() map[[3]string]expectation {
 
 // classify attaches the expectation to every census row; rows of functions the list does not know inherit from an
 // expected row of the same directory, file, field and count whose function no longer has that field (moved site).
-func classify(rows []censusRow, exp map[[3]string]expectation) []struct {
+func classify(rows []censusRow, exp map[[3]string]expectation, callers map[string][]string) []struct {
 	Row censusRow
 	Exp *expectation
 } {
@@ -633,6 +665,48 @@ func classify(rows []censusRow, exp map[[3]string]expectation) []struct {
 			out[i].Row.MovedFrom = e.Fn
 			used[k] = true
 			break
+		}
+	}
+	// extracted helper: a function the list does not know at all, all of whose callers (same directory) are known and
+	// agree on one class for that field (or, if they have no row for the field, on one class altogether), is reached
+	// only through them: it inherits that class (and the caller's name, which is what the model's table knows)
+	knownFn := map[string]bool{}
+	for k := range exp {
+		knownFn[k[0]] = true
+	}
+	for i, r := range rows {
+		if out[i].Exp != nil || knownFn[r.Fn] || len(callers[r.Fn]) == 0 {
+			continue
+		}
+		classes, any := map[string]string{}, map[string]string{}
+		ok := true
+		for _, c := range callers[r.Fn] {
+			if !knownFn[c] {
+				ok = false
+				break
+			}
+			for _, k := range keys {
+				if k[0] != c {
+					continue
+				}
+				any[exp[k].Class] = c
+				if k[1] == r.Field {
+					classes[exp[k].Class] = c
+				}
+			}
+		}
+		if !ok {
+			continue
+		}
+		pick := classes
+		if len(pick) == 0 {
+			pick = any
+		}
+		if len(pick) == 1 {
+			for cls, caller := range pick {
+				out[i].Exp = &expectation{Fn: caller, Field: r.Field, Kind: r.Kind, File: r.File, Class: cls, Unguarded: r.Unguarded, Reason: "extracted from " + caller}
+				out[i].Row.MovedFrom = caller
+			}
 		}
 	}
 	return out
